@@ -37,6 +37,7 @@ class Ctx:
                       'std_summaries': set(), 'unsummarised': set(), 'loop_functions_checked': 0, 'executed': set()}
         self.assumptions = set()
         self.executed = set()
+        self.own_module = True    # False while a module runs as a dependency of another property's check
         self.samples = []
 
     def crate(self, cfg):
